@@ -121,7 +121,20 @@ fn head_string(method: &str, scheme: Option<&str>, authority: Option<&str>, path
     format!("{method} scheme={scheme:?} authority={authority:?} path={path} protocol={protocol} {}", headermap_str(headers))
 }
 
-async fn recv_message_srv<S: h3::quic::RecvStream>(s: &mut h3::server::RequestStream<S, Bytes>, seen: &Shared<Seen>) {
+/// The body pieces are handed over as a Buf made of TWO slices (`chunk()` shows only the first): a sender
+/// that looks at the first slice only would announce or write the wrong length.
+type B2 = bytes::buf::Chain<Bytes, Bytes>;
+
+fn two_slices(p: Vec<u8>) -> B2 {
+    use bytes::Buf;
+    let cut = p.len() / 2;
+    let tail = Bytes::copy_from_slice(&p[cut..]);
+    let mut head = Bytes::from(p);
+    head.truncate(cut);
+    head.chain(tail)
+}
+
+async fn recv_message_srv<S: h3::quic::RecvStream>(s: &mut h3::server::RequestStream<S, B2>, seen: &Shared<Seen>) {
     loop {
         app_pause().await;
         match s.recv_data().await {
@@ -152,7 +165,7 @@ async fn recv_message_srv<S: h3::quic::RecvStream>(s: &mut h3::server::RequestSt
 }
 
 /// the rest of the documented pattern after the body has ended
-async fn recv_tail_srv<S: h3::quic::RecvStream>(s: &mut h3::server::RequestStream<S, Bytes>, seen: &Shared<Seen>) {
+async fn recv_tail_srv<S: h3::quic::RecvStream>(s: &mut h3::server::RequestStream<S, B2>, seen: &Shared<Seen>) {
     app_pause().await;
     match s.recv_trailers().await {
         Ok(Some(t)) => seen.borrow_mut().trailers = headermap_str(&t),
@@ -165,7 +178,7 @@ async fn recv_tail_srv<S: h3::quic::RecvStream>(s: &mut h3::server::RequestStrea
     seen.borrow_mut().done = true;
 }
 
-async fn recv_message_cli<S: h3::quic::RecvStream>(s: &mut h3::client::RequestStream<S, Bytes>, seen: &Shared<Seen>) {
+async fn recv_message_cli<S: h3::quic::RecvStream>(s: &mut h3::client::RequestStream<S, B2>, seen: &Shared<Seen>) {
     match s.recv_response().await {
         Ok(r) => seen.borrow_mut().head = format!("{} {}", r.status().as_u16(), headermap_str(r.headers())),
         Err(e) => {
@@ -240,7 +253,7 @@ pub fn execute_cfg(shape: &Shape, seed: u64, mut cfg: NetCfg) -> Outcome {
         ex.spawn("server", async move {
             let mut b = h3::server::builder();
             b.send_grease(true).enable_extended_connect(true);
-            let mut conn: SrvConn = match b.build(SimConn::new(&net2, SERVER)).await {
+            let mut conn: h3::server::Connection<SimConn, B2> = match b.build(SimConn::new(&net2, SERVER)).await {
                 Ok(c) => c,
                 Err(e) => {
                     sdrv2.borrow_mut().push(format!("build:{}", conn_class(&e)));
@@ -303,7 +316,7 @@ pub fn execute_cfg(shape: &Shape, seed: u64, mut cfg: NetCfg) -> Outcome {
                                 let r = async {
                                     tx.send_response(resp).await?;
                                     for p in resp_body {
-                                        tx.send_data(Bytes::from(p)).await?;
+                                        tx.send_data(two_slices(p)).await?;
                                     }
                                     if let Some(t) = tr {
                                         tx.send_trailers(header_map(&t)).await?;
@@ -320,7 +333,7 @@ pub fn execute_cfg(shape: &Shape, seed: u64, mut cfg: NetCfg) -> Outcome {
                                 let r = async {
                                     stream.send_response(resp).await?;
                                     for p in resp_body {
-                                        stream.send_data(Bytes::from(p)).await?;
+                                        stream.send_data(two_slices(p)).await?;
                                     }
                                     if let Some(t) = tr {
                                         stream.send_trailers(header_map(&t)).await?;
@@ -355,7 +368,7 @@ pub fn execute_cfg(shape: &Shape, seed: u64, mut cfg: NetCfg) -> Outcome {
         ex.spawn("client", async move {
             let mut b = h3::client::builder();
             b.send_grease(true).enable_extended_connect(true);
-            let (mut conn, mut sr): (CliConn, CliSend) = match b.build(SimConn::new(&net2, CLIENT)).await {
+            let (mut conn, mut sr): (h3::client::Connection<SimConn, B2>, h3::client::SendRequest<simnet::SimOpener, B2>) = match b.build(SimConn::new(&net2, CLIENT)).await {
                 Ok(x) => x,
                 Err(e) => {
                     cdrv2.borrow_mut().push(format!("build:{}", conn_class(&e)));
@@ -407,7 +420,7 @@ pub fn execute_cfg(shape: &Shape, seed: u64, mut cfg: NetCfg) -> Outcome {
                 });
                 let r = async {
                     for p in body {
-                        tx.send_data(Bytes::from(p)).await?;
+                        tx.send_data(two_slices(p)).await?;
                     }
                     if let Some(t) = tr {
                         tx.send_trailers(header_map(&t)).await?;
@@ -429,7 +442,7 @@ pub fn execute_cfg(shape: &Shape, seed: u64, mut cfg: NetCfg) -> Outcome {
                 let mut stream = stream;
                 let r = async {
                     for p in body {
-                        stream.send_data(Bytes::from(p)).await?;
+                        stream.send_data(two_slices(p)).await?;
                     }
                     if let Some(t) = tr {
                         stream.send_trailers(header_map(&t)).await?;
@@ -662,7 +675,7 @@ pub fn run(args: &Args) -> i32 {
     rep.exhaustive = true;
     let shapes = shapes(thorough);
     rep.rule = format!(
-        "{} message shapes from the product of 5 method kinds (GET, POST, OPTIONS, CONNECT, extended CONNECT) x 7 targets (absolute https/http with and without path and query, root path with a query, empty path with a query, authority-form, path + Host header) x 7 header multisets (static-table hit, name-only hit, literal, a name three times interleaved with another, 300-byte value, bytes 0x80-0xff) x 9 body piece lists (0..65536 bytes, pieces of 0,1,2,3,63,64,65,16383,16384 bytes) x 3 trailer options, independently for request and response, request stream whole, split into halves on separate tasks before the first read, or split after the first body read (in the middle of a DATA frame when the transport cut it). Each shape: every execution with <= {bound} deviations, a deviation being a chunk cut (dense for short reads, at write-chunk boundaries +-1 otherwise) or delayed delivery on the request stream in either direction, a partial or pending write acceptance, an application pause between two receive calls, or a scheduling choice other than the FIFO default among client task, client driver, server task, handlers and split halves; plus every shape once under one-byte-per-read and once under one-byte-per-write. Every other shape sends its request through a clone of the SendRequest handle. Body bytes are position-coded. Oracle: message in = message out. states = distinct (transport cursors, observation progress) fingerprints; non-trivial = executions with at least one deviation.",
+        "{} message shapes from the product of 5 method kinds (GET, POST, OPTIONS, CONNECT, extended CONNECT) x 7 targets (absolute https/http with and without path and query, root path with a query, empty path with a query, authority-form, path + Host header) x 7 header multisets (static-table hit, name-only hit, literal, a name three times interleaved with another, 300-byte value, bytes 0x80-0xff) x 9 body piece lists (0..65536 bytes, pieces of 0,1,2,3,63,64,65,16383,16384 bytes) x 3 trailer options, independently for request and response, request stream whole, split into halves on separate tasks before the first read, or split after the first body read (in the middle of a DATA frame when the transport cut it). Each shape: every execution with <= {bound} deviations, a deviation being a chunk cut (dense for short reads, at write-chunk boundaries +-1 otherwise) or delayed delivery on the request stream in either direction, a partial or pending write acceptance, an application pause between two receive calls, or a scheduling choice other than the FIFO default among client task, client driver, server task, handlers and split halves; plus every shape once under one-byte-per-read and once under one-byte-per-write. Every body piece is handed over as a two-slice Buf (Chain). Every other shape sends its request through a clone of the SendRequest handle. Body bytes are position-coded. Oracle: message in = message out. states = distinct (transport cursors, observation progress) fingerprints; non-trivial = executions with at least one deviation.",
         shapes.len()
     );
     rep.assumptions = vec![
